@@ -22,6 +22,8 @@ class RM:
     data_ty: str = "String"         # T for typed modes
     payload: tuple = ("raw",)       # ("raw",) or tuple of type texts
     raw_marked: bool = True         # whether the raw Binary payload carries #[sv::payload(raw)]
+    pnames: tuple = None            # names of the typed payload parameters (default p0, p1, ...)
+    data_flags: str = None          # literal flag list for sv::data (same mode, other spelling / order)
 
     def outcome(self):
         return self.on or "always"
@@ -36,6 +38,8 @@ def data_param_ty(rm):
 
 
 def data_attr(rm):
+    if rm.data_flags is not None:
+        return "#[sv::data(%s)]" % rm.data_flags
     return {"raw": "#[sv::data(raw)]", "raw,opt": "#[sv::data(raw, opt)]", "typed": "#[sv::data]", "opt": "#[sv::data(opt)]",
             "instantiate": "#[sv::data(instantiate)]", "instantiate,opt": "#[sv::data(instantiate, opt)]"}[rm.data]
 
@@ -59,8 +63,9 @@ def to_method(rm, label="Ct"):
         echo.append('("payload", vsupport::js(&payload))')
     else:
         for j, t in enumerate(rm.payload):
-            args.append(Arg("p%d" % j, t))
-            echo.append('("p%d", vsupport::js(&p%d))' % (j, j))
+            pn = rm.pnames[j] if rm.pnames else "p%d" % j
+            args.append(Arg(pn, t))
+            echo.append('("p%d", vsupport::js(&%s))' % (j, pn))
     mp = ""
     if rm.handlers is not None:
         mp += ", handlers=[%s]" % ", ".join(rm.handlers)
@@ -223,6 +228,11 @@ def quick_programs():
     rms.append(RM(fn="d7", on="success", data="typed", data_ty="u32"))
     rms.append(RM(fn="d8", on="success", data="opt", data_ty="Inner"))
     rms.append(RM(fn="d9", on="success", data="typed", data_ty="Inner", payload=("u32",)))
+    # a nullable data type in the mandatory typed mode; flags written in the other order
+    rms.append(RM(fn="d10", on="success", data="typed", data_ty="Option<String>"))
+    rms.append(RM(fn="d11", on="success", data="instantiate,opt", data_flags="opt, instantiate"))
+    rms.append(RM(fn="d12", on="success", data="raw,opt", data_flags="opt, raw"))
+    rms.append(RM(fn="d13", on="success", data="opt", data_ty="Option<String>"))
     out.append(("rmodes", rms, {"modes"}))
     # table shapes
     rms = [RM(fn="s_only", on="success"), RM(fn="e_only", on="error"), RM(fn="alw", on="always"), RM(fn="dflt", on=None),
@@ -234,8 +244,22 @@ def quick_programs():
     rms = [RM(fn="p_raw", on="always"), RM(fn="p_one", on="always", payload=("u32",)), RM(fn="p_two", on="always", payload=("u32", "String")),
            RM(fn="p_three", on="success", payload=("Inner", "Option<u32>", "Vec<String>"), data="raw,opt"),
            RM(fn="p_str", on="error", payload=("String",)), RM(fn="p_unit", on="always", payload=("()",)),
-           RM(fn="ps", handlers=("pboth",), on="success", payload=("u64", "bool")), RM(fn="pe", handlers=("pboth",), on="error", payload=("u64", "bool"))]
+           RM(fn="ps", handlers=("pboth",), on="success", payload=("u64", "bool")), RM(fn="pe", handlers=("pboth",), on="error", payload=("u64", "bool")),
+           # payload parameters named like the locals / fields of the generated builder and dispatcher
+           RM(fn="p_named", on="always", payload=("u64", "String"), pnames=("id", "reply_on")),
+           RM(fn="p_named2", on="success", payload=("u64", "String", "u32"), pnames=("msg", "gas_limit", "payload"), data="raw,opt"),
+           RM(fn="p_named3", on="error", payload=("String", "u64"), pnames=("result", "gas_used"))]
     out.append(("rpayload", rms, {"payload"}))
+    # payload parameters named like every local of the generated dispatcher / builder, for each outcome
+    LOCALS = ["id", "payload", "gas_used", "result", "deps", "env", "msg", "data", "events", "msg_responses", "error", "sub_msg_resp", "contract", "resp", "reply_on"]
+    rms = []
+    for n in LOCALS:
+        rms.append(RM(fn="s_" + n, on="success", payload=("u64",), pnames=(n,)))
+        if n != "error":
+            rms.append(RM(fn="e_" + n, on="error", payload=("u64", "String"), pnames=(n, "other")))
+        if n != "result":
+            rms.append(RM(fn="a_" + n, on="always", payload=("u64",), pnames=(n,)))
+    out.append(("rpnames", rms, {"payload", "pnames"}))
     # declaration orders of a success/error pair (error first is where a merge shortcut shows)
     out.append(("rorder_se", [RM(fn="on_s", handlers=("x",), on="success", data="raw,opt"), RM(fn="on_e", handlers=("x",), on="error")], {"order"}))
     out.append(("rorder_es", [RM(fn="on_e", handlers=("x",), on="error"), RM(fn="on_s", handlers=("x",), on="success", data="raw,opt")], {"order"}))
